@@ -440,6 +440,9 @@ class AdaptivePolicy:
             self.failures += 1
         old_rate = self._current_rate
         self._current_rate = max(self._min_rate, self._current_rate * self._decrease_factor)
+        # The bucket shrinks with the rate: tokens earned under the old, larger
+        # bucket must not be spendable once the rate has been lowered.
+        self._tokens = min(self._tokens, self._current_rate * self._window_size)
         if self._current_rate < old_rate:
             self.rate_decreases += 1
             self.rate_history.append(RateSnapshot(time=now, rate=self._current_rate, reason=reason))
